@@ -540,9 +540,10 @@ func main() {
 			map[string]string{"p.Ports.IsEmpty()": "portsEmpty", "len(p.NamedPorts) == 0": "namedEmpty"}},
 		{"pkg/netpol/eval/internal/k8s/policy_connections.go", "PolicyConnections.IsEmpty", "policyConnsIsEmpty", []string{"(allowedEmpty deniedEmpty passEmpty : Bool)"},
 			map[string]string{"pc.AllowedConns.IsEmpty()": "allowedEmpty", "pc.DeniedConns.IsEmpty()": "deniedEmpty", "pc.PassConns.IsEmpty()": "passEmpty"}},
-		{"pkg/netpol/eval/check.go", "isPodToItself", "isPodToItself", []string{"(p1IsPod p2IsPod : Bool)", "(name1 name2 ns1 ns2 : String)"},
+		{"pkg/netpol/eval/check.go", "isPodToItself", "isPodToItself", []string{"(p1IsPod p2IsPod : Bool)", "(name1 name2 ns1 ns2 : String)", "(fake1 fake2 : Bool)"},
 			map[string]string{"peer1.PeerType() == k8s.PodType": "p1IsPod", "peer2.PeerType() == k8s.PodType": "p2IsPod",
-				"peer1.GetPeerPod().Name": "name1", "peer2.GetPeerPod().Name": "name2", "peer1.GetPeerPod().Namespace": "ns1", "peer2.GetPeerPod().Namespace": "ns2"}},
+				"peer1.GetPeerPod().Name": "name1", "peer2.GetPeerPod().Name": "name2", "peer1.GetPeerPod().Namespace": "ns1", "peer2.GetPeerPod().Namespace": "ns2",
+				"peer1.GetPeerPod().FakePod": "fake1", "peer2.GetPeerPod().FakePod": "fake2"}},
 		{"pkg/netpol/connlist/connlist.go", "ConnlistAnalyzer.isPeerFocusWorkload", "isPeerFocusWorkload", []string{"(focus name nsName : String)"},
 			map[string]string{"ca.focusWorkload": "focus", "peer.Name()": "name", "getPeerNsNameFormat(peer)": "nsName"}},
 		{"pkg/netpol/internal/common/portset.go", "PortSet.ContainedIn", "", nil, nil}, // fingerprint only
